@@ -266,6 +266,76 @@ class Gen(object):
         return {"StartAt": s0, "States": ss}
 
 
+# --------------------------------------------------------------------------- timed variants
+
+def rfc3339(epoch_ms, off_min=0, frac=False, zulu=False):
+    """the instant in the notation with that UTC offset"""
+    import datetime as dt
+    t = dt.datetime.fromtimestamp(epoch_ms // 1000, dt.timezone.utc) + dt.timedelta(minutes=off_min)
+    s = t.strftime("%Y-%m-%dT%H:%M:%S")
+    if frac or epoch_ms % 1000:
+        s += ".%03d" % (epoch_ms % 1000)
+    if zulu and off_min == 0:
+        return s + "Z"
+    return s + "%s%02d:%02d" % ("+" if off_min >= 0 else "-", abs(off_min) // 60, abs(off_min) % 60)
+
+
+def timify(rng, machine, plans, data, base_epoch_ms=1700000000000):
+    """Make a generated case exercise the clock (in place): Tasks get `TimeoutSeconds` and their workers reply delays on
+    both sides of the deadline (never exactly on it: which of two timers due at the same instant fires first is not
+    the model's business) or never answer; other workers get non-default delays; Wait states take all four forms, the
+    timestamps written in assorted offset notations; `States.Timeout` appears in Retry / Catch lists."""
+    when_ms = base_epoch_ms + rng.choice([0, 500, 1000, 2500, 4000])
+    if isinstance(data, dict):
+        data["when"] = rfc3339(when_ms, rng.choice([0, 0, 330, -210, 60, -1439]), zulu=rng.random() < 0.5)
+
+    def walk(states):
+        for st in states.values():
+            k = st.get("Type")
+            if k == "Task":
+                fn = st["Resource"].rsplit(":", 1)[1]
+                tmo = None
+                if rng.random() < 0.45:
+                    tmo = rng.choice([1, 1, 2, 3])
+                    st["TimeoutSeconds"] = tmo
+                    for key in ("Retry", "Catch"):
+                        if key in st and rng.random() < 0.5:
+                            rng.choice(st[key])["ErrorEquals"] = rng.choice([["States.Timeout"], ["States.ALL"], ["States.Timeout", "Other"]])
+                out = []
+                for o in plans.get(fn) or [("ok",)]:
+                    r = rng.random()
+                    if tmo is not None and r < 0.12:
+                        out.append(("none",))
+                        continue
+                    if tmo is not None and r < 0.6:
+                        d = tmo * 1000 + rng.choice([-700, -50, -1, 1, 60, 900])
+                    else:
+                        d = rng.choice([10, 10, 5, 40, 250, 900])
+                    out.append(("ok", o[1] if len(o) > 1 else None, d) if o[0] == "ok" else
+                               ("err", o[1], o[2] if len(o) > 2 else "m", d))
+                plans[fn] = out
+            elif k == "Wait" and rng.random() < 0.7:
+                for f in ("Seconds", "SecondsPath", "Timestamp", "TimestampPath"):
+                    st.pop(f, None)
+                form = rng.choice(["Seconds", "SecondsPath", "Timestamp", "TimestampPath"])
+                if form == "Seconds":
+                    st["Seconds"] = rng.choice([0, 1, 2, 3])
+                elif form == "SecondsPath":
+                    st["SecondsPath"] = rng.choice(["$.n", "$.a.b", "$.missing", "$.flag"])
+                elif form == "Timestamp":
+                    st["Timestamp"] = rng.choice([rfc3339(base_epoch_ms + rng.choice([-5000, 0, 700, 1500, 3000, 6000]),
+                                                          rng.choice([0, 330, -210, 1439, -1]), frac=rng.random() < 0.3,
+                                                          zulu=rng.random() < 0.5), "not a timestamp"])
+                else:
+                    st["TimestampPath"] = rng.choice(["$.when", "$.when", "$.ts", "$.missing"])
+            for b in st.get("Branches", []):
+                walk(b["States"])
+            for key in ("Iterator", "ItemProcessor"):
+                if key in st:
+                    walk(st[key]["States"])
+    walk(machine["States"])
+
+
 def features(machine):
     """state types, nesting depth, error-handling fields used — for the reported distribution"""
     out = {"types": {}, "depth": 0, "retry": 0, "catch": 0, "states": 0}
